@@ -164,6 +164,11 @@ def tr_call(env, node):
         if td == "narr":
             return f"(segment_max_nat {d} {s} {n})", "narr"
         fail(node, f"segment_max of {td}")
+    if fname in ("lax.optimization_barrier", "jax.lax.optimization_barrier"):
+        # identity on values: only constrains how XLA schedules the computation
+        if len(node.args) == 1 and not node.keywords:
+            return tr(env, node.args[0])
+        fail(node, "optimization_barrier: expected one argument")
     if fname in env.known:
         coqname, params, rtype = env.known[fname]
         given = {}
